@@ -1,4 +1,5 @@
 import SSVerif.Proofs.Dict
+import SSVerif.Proofs.Dict2pid
 import SSVerif.Proofs.HashTableModes
 /-!
 # C16 — Dictionary additions take effect and never disturb existing entries
@@ -293,6 +294,136 @@ theorem C16_d2p_covers (m : Mdef) (d : Dict) (h : WF d) (adds : List (Key × Key
             rw [hp'']
             exact covers_addPron_mono _ _ _ _ (hc _ (List.mem_iff_getElem?.2 ⟨j, h0⟩))
 
+/-! ### contents of the word-boundary tables (`dict2pid.c` over `bin_mdef_phone_id_nearest`)
+
+`BinMdef` is the raw `cd_tree` / filler flags / `phone[].ssid` of the acoustic model (dumped from the real model for
+the correspondence run); `nearest` and `BinMdef.ssidOf` are `bin_mdef_phone_id_nearest` and its composition with
+`bin_mdef_pid2ssid` — the lookup C02's flat network performs directly.  The theorems hold for **every** such model. -/
+
+open SSVerif.Dict2pid in
+/-- **compression is lossless.** For every uncompressed row and every context `rc` whose cell is a real id:
+`ssid[cimap[rc]]` is that cell, `cimap` has one entry per context and `cimap[rc]` indexes inside the `n_ssid` stored
+ids (so the read stays inside the arrays `compress_table`'s callers allocate). -/
+theorem C16_compress_lossless (row : List Nat) (rc x : Nat) (h : row[rc]? = some x) (hx : x ≠ bad) :
+    (compressTable row).get rc = x ∧ (compressTable row).cimap.length = row.length ∧
+    (compressTable row).cimap.getD rc (compressTable row).ssid.length < (compressTable row).ssid.length ∧
+    (compressTable row).ssid.length ≤ row.length := by
+  refine ⟨compress_get h hx, (compress_sizes row).1, (compress_sizes row).2 rc x h hx, ?_⟩
+  -- every stored id is a cell of the row, first occurrences only: at most one per cell
+  suffices H : ∀ (r : List Nat) (s : List Nat × List Nat), (r.foldl compressStep s).1.length ≤ s.1.length + r.length by
+    have := H row ([], []); simpa [compressTable] using this
+  intro r
+  induction r with
+  | nil => intro s; simp
+  | cons y ys ih =>
+    intro s
+    have h1 := ih (compressStep s y)
+    have h2 : (compressStep s y).1.length ≤ s.1.length + 1 := by
+      unfold compressStep; split
+      · simp
+      · simp only; split <;> simp
+    simp only [List.foldl_cons, List.length_cons]; omega
+
+open SSVerif.Dict2pid in
+/-- **the tables are the direct lookup (all histories).** Start from any well-formed dictionary, build the tables
+(`dict2pid_build`) and perform any sequence of `decoder_add_word` calls (accepted or rejected).  Then for every word
+of the resulting dictionary, every entry a search reads for it through `dict2pid_lrdiph_rc` (one-phone words, all
+left and right contexts), `dict2pid_ldiph_lc` (first phone, all left contexts) and `dict2pid_rssid`
+(`ssid[cimap[rc]]`, last phone, all right contexts) equals `pid2ssid(phone_id_nearest(base, lc, rc, position))` for the
+same base phone, contexts and word position (single / begin / end).  While the source's `populate_lrdiph` still
+stores into the silence rows (constants regenerated from dict2pid.c; defect D61) the statement excludes the first
+phone of a word whose second phone is the silence phone, resp. the last phone of a word whose second-last phone is. -/
+theorem C16_d2p_tables_exact (md : Mdef) (m : BinMdef) (d : Dict) (h : WF d) (adds : List (Key × Key)) :
+    let s := adds.foldl (fun s a => (decoderAddWordT md m s a.1 a.2).1) (d, build m d)
+    ∀ e ∈ s.1.words, ReadsExact m s.2 e.pron ∧ ReadsShape m s.2 e.pron := by
+  intro s
+  suffices H : ∀ (adds : List (Key × Key)) (s0 : Dict × Tabs), WF s0.1 → TabsOK m s0.2 →
+      (∀ e ∈ s0.1.words, CovT s0.2 e.pron) →
+      let s1 := adds.foldl (fun s a => (decoderAddWordT md m s a.1 a.2).1) s0
+      TabsOK m s1.2 ∧ ∀ e ∈ s1.1.words, CovT s1.2 e.pron by
+    obtain ⟨b1, b2⟩ := build_spec m d
+    obtain ⟨h1, h2⟩ := H adds (d, build m d) h b1 b2
+    exact fun e he => ⟨reads_exact h1 (h2 e he), reads_shape h1 (h2 e he)⟩
+  intro adds
+  induction adds with
+  | nil => intro s0 _ ht hc; exact ⟨ht, hc⟩
+  | cons a as ih =>
+    intro s0 hw ht hc
+    simp only [List.foldl_cons]
+    refine ih _ ?_ ?_ ?_
+    · unfold decoderAddWordT
+      simp only
+      split <;> exact wf_decoderAddWord hw md a.1 a.2
+    · unfold decoderAddWordT
+      simp only
+      split
+      · exact ht
+      · exact (addWord_spec ht _).1
+    · unfold decoderAddWordT
+      simp only
+      split
+      · next hnone =>
+        have := (C16_reject_is_noop_decoder hw md a.1 a.2).2 hnone
+        intro en hen
+        rw [this] at hen
+        exact hc en hen
+      · next i hsome =>
+        rcases decoderAddWord_cases md s0.1 a.1 a.2 with e | ⟨pron, _, _, e⟩
+        · rw [e] at hsome; cases hsome
+        · have hr : dictAddWord s0.1 a.1 pron = ((dictAddWord s0.1 a.1 pron).1, some i) := by
+            rw [e] at hsome; exact Prod.ext rfl hsome
+          obtain ⟨hi, hlen, _, en, hen, _, hpr⟩ := C16_add_then_lookup hw hr
+          simp only [e, hen, Option.map_some, Option.getD_some, hpr]
+          obtain ⟨_, g, cnew⟩ := addWord_spec ht pron
+          intro e' he'
+          obtain ⟨j, hj⟩ := List.mem_iff_getElem?.1 he'
+          by_cases hjn : j = i
+          · subst hjn
+            rw [hen] at hj; cases hj
+            rw [hpr]; exact cnew
+          · have hjlt : j < s0.1.words.length := by
+              have : j < (dictAddWord s0.1 a.1 pron).1.words.length := by
+                rcases List.getElem?_eq_some_iff.1 hj with ⟨hh, _⟩; exact hh
+              omega
+            have h0 : s0.1.words[j]? = some s0.1.words[j] := by simp [hjlt]
+            obtain ⟨e'', he'', _, hp'', _⟩ := dictAddWord_old_entry hw a.1 pron h0
+            rw [hj] at he''; cases he''
+            rw [hp'']
+            exact covT_grows g (hc _ (List.mem_iff_getElem?.2 ⟨j, h0⟩))
+
+open SSVerif.Dict2pid in
+/-- word-internal phones are not tabulated: `dict2pid_internal` *is* the direct lookup at `WORD_POSN_INTERNAL` -/
+theorem C16_d2p_internal_exact (m : BinMdef) (p : List Nat) (pos : Nat) :
+    internal m p pos = m.pid2ssid (nearest m (p.getD pos 0) (p.getD (pos - 1) 0) (p.getD (pos + 1) 0) posInternal) := rfl
+
+open SSVerif.Dict2pid in
+/-- **back-off of `bin_mdef_phone_id_nearest`.** An exact triphone wins; otherwise the result is a triphone of the
+same base phone found in the tree (other word position and/or silence contexts) or, last, the CI phone itself. -/
+theorem C16_nearest_backoff (m : BinMdef) (b l r pos : Nat) :
+    (∀ p, phoneId m b l r pos = some p → nearest m b l r pos = p) ∧
+    (nearest m b l r pos = b ∨ ∃ l' r' pos', phoneId m b l' r' pos' = some (nearest m b l r pos)) := by
+  have tp : ∀ (l r p : Nat), tryPos m b l r pos = some p → ∃ pos', phoneId m b l r pos' = some p := by
+    intro l r p hp
+    unfold tryPos at hp
+    split at hp
+    · next q hq => cases hp; exact ⟨pos, hq⟩
+    · unfold otherPos at hp
+      obtain ⟨a, _, ha⟩ := List.exists_of_findSome?_eq_some hp
+      exact ⟨a, ha⟩
+  constructor
+  · intro p hp; simp [nearest, tryPos, hp]
+  · unfold nearest
+    split
+    · next p hp => obtain ⟨pos', h'⟩ := tp l r p hp; exact Or.inr ⟨l, r, pos', h'⟩
+    · split
+      · simp only
+        split
+        · cases hq : tryPos m b (silCtx m l r pos).1 (silCtx m l r pos).2 pos with
+          | none => exact Or.inl rfl
+          | some q => obtain ⟨pos', h'⟩ := tp _ _ q hq; exact Or.inr ⟨_, _, pos', h'⟩
+        · exact Or.inl rfl
+      · exact Or.inl rfl
+
 /-- the key equality of the abstract map is the one C20 proves for `hash_table.c`'s two string modes -/
 theorem C16_key_equality (nocase : Bool) (a b : Key) :
     norm nocase a = norm nocase b ↔ SSVerif.HashTable.keycmp nocase a b = true := by
@@ -331,5 +462,47 @@ example :
     r.2 = [.id (some 0), .id (some 1), .id (some 2), .id (some 3)] ∧ r.1.altChain 0 = [3, 1, 2] ∧
     r.1.isBase 0 = true ∧ r.1.isBase 2 = false := by
   decide
+
+
+/-! ### non-vacuity for the table theorems: a two-phone model (0 = SIL, a filler; 1 = A) in which the triphone
+A(SIL,SIL) exists word-initially (pid 2, ssid 12) and as a single-phone word (pid 3, ssid 13) -/
+
+open SSVerif.Dict2pid in
+private def tiny : BinMdef :=
+  { nCi := 2, sil := 0, filler := #[true, false],
+    tree := #[⟨0, 0, -1⟩, ⟨1, 1, 4⟩, ⟨2, 0, -1⟩, ⟨3, 1, 7⟩,
+              ⟨1, 1, 5⟩, ⟨0, 1, 6⟩, ⟨0, 0, 2⟩,
+              ⟨1, 1, 8⟩, ⟨0, 1, 9⟩, ⟨0, 0, 3⟩],
+    ssid := #[10, 11, 12, 13] }
+
+-- exact match; exact match at SINGLE; silence back-off (lc A → SIL at a single-phone word); CI fall-back twice
+open SSVerif.Dict2pid in
+example : nearest tiny 1 0 0 posBegin = 2 ∧ nearest tiny 1 0 0 posSingle = 3 ∧ nearest tiny 1 1 0 posSingle = 3 ∧
+    nearest tiny 1 1 1 posEnd = 1 ∧ nearest tiny 0 1 1 posInternal = 0 ∧ nearest tiny 1 0 0 posEnd = 2 := by decide
+
+private def dictAB : Dict := (run ⟨[[83], [65]], 0⟩ (Dict.empty false 4) [.dadd [97] [1], .dadd [98] [1, 0, 1]]).1
+private def dictBA : Dict := (run ⟨[[83], [65]], 0⟩ (Dict.empty false 4) [.dadd [98] [1, 0, 1], .dadd [97] [1]]).1
+
+-- **D61 decided with the model.** The same two words — `a` = A and `b` = A SIL A — in the two possible orders:
+-- with the one-phone word first the word-initial entry of `b` for left context SIL is the BEGIN triphone (ssid 12);
+-- with it last, `populate_lrdiph` of the pinned tree overwrites the row with the single-phone-word id (ssid 13).
+-- The right-hand side follows the constant regenerated from the current dict2pid.c.
+open SSVerif.Dict2pid in
+example : (build tiny dictAB).ldiphLc 1 0 0 = 12 ∧
+    (build tiny dictBA).ldiphLc 1 0 0 = (if Generated.d2pPopulateWritesLdiphSil then 13 else 12) ∧
+    tiny.ssidOf 1 0 0 posBegin = 12 := by decide
+
+-- the same through `decoder_add_word`: `b` added after `a` finds the row already written by `populate_lrdiph`
+open SSVerif.Dict2pid in
+example :
+    let d0 := (run ⟨[[83], [65]], 0⟩ (Dict.empty false 4) [.dadd [97] [1]]).1
+    let s := (decoderAddWordT ⟨[[83], [65]], 0⟩ tiny (d0, build tiny d0) [98] [65, 32, 83, 32, 65]).1
+    s.2.ldiphLc 1 0 0 = (if Generated.d2pPopulateWritesLdiphSil then 13 else 12) ∧
+    (s.2.rssidAt 1 0).get 0 = (if Generated.d2pPopulateWritesRdiphSil then 13 else 12) ∧ s.2.lrdiphRc 1 1 0 = 13 := by
+  decide
+
+-- compression: three contexts, two distinct ids
+open SSVerif.Dict2pid in
+example : compressTable [7, 9, 7] = { ssid := [7, 9], cimap := [0, 1, 0] } ∧ (compressTable [7, 9, 7]).get 2 = 7 := by decide
 
 end SSVerif.Dict
